@@ -301,6 +301,11 @@ def run(prop: str, tier: str) -> int:
             for j in flagged:
                 if j['id'] not in again[0] and j['id'] not in again[1]:
                     unreproduced.append(j['id'])
+        # executions in which the interpreter itself lost an interrupt (a KeyboardInterrupt reported through
+        # sys.unraisablehook: raised inside a finalizer, it never reached labtech) or crashed are inconclusive
+        inconclusive = [t['tid'] for t in rtraces
+                        if t['meta'].get('crashed') or any(u[0] == 'KeyboardInterrupt' for u in t['meta'].get('unraisable', []))]
+        unreproduced += [x for x in inconclusive if x not in unreproduced]
         nviol = 0
         by_id = {j['id']: j for j in jobs}
         for t in traces:
@@ -347,6 +352,7 @@ def run(prop: str, tier: str) -> int:
             'drift': {'traces_with_inapplicable_schedule_entries': drift},
             'violating_traces': nviol,
             'r3_violations_not_reproduced_in_two_reruns': unreproduced,
+            'r3_inconclusive_interpreter_lost_interrupt_or_crashed': inconclusive,
             'phase_wall_s': tp,
         }
         rc = rep.finish()
